@@ -1,4 +1,5 @@
 #include <assert.h>
+#include <ctype.h>
 #include <limits.h>
 #include <stdint.h>
 #include <stdio.h>
@@ -681,6 +682,16 @@ callback_chunkedheader(void * cookie, int status)
 
 	/* If we found one, handle the line. */
 	if (eolpos != buflen) {
+		/*
+		 * The chunk length must start with a hex digit.  (In
+		 * particular, we must not let strtoumax skip over leading
+		 * whitespace, since that could take it past the EOL.)
+		 */
+		if (!isxdigit(buf[0])) {
+			warn0("Invalid chunk length line");
+			return (fail(H));
+		}
+
 		/*
 		 * Parse the chunk length; it's always in base 16, and allow
 		 * trailing characters to accommodate the EOL.  ${buf} is not
